@@ -14,12 +14,15 @@ HIER = {
     "one_level": (["x", "y", "z"], [{"XY": ["x", "y"], "Z": ["z"]}]),
     "three_level": (["a1", "a2", "b1"], [{"A": ["a1", "a2"], "B": ["b1"]}, {"M": ["A", "B"]}, {"TOP": ["M"]}]),
 }
+# numeric codes held as numbers in the column (converted to their string form before the hierarchy applies); only the
+# rejection of an unknown code under unknown_handling='raise' is asserted for this one
+HIER_NUMERIC = (["1", "2", "3"], [{"A": ["1", "2"], "B": ["3"]}])
 
 
 def h_chained(ctx, hier, N, n_nan, n_unknown, unknown_handling):
     from AutoCarver.discretizers import ChainedDiscretizer, GroupedList
 
-    leaves, levels = HIER[hier]
+    leaves, levels = HIER_NUMERIC if hier == "numeric" else HIER[hier]
     counts, left = [], N
     for i in range(len(leaves) - 1):
         c = ctx.choose(f"c{i}", left + 1)
@@ -27,6 +30,8 @@ def h_chained(ctx, hier, N, n_nan, n_unknown, unknown_handling):
         left -= c
     counts.append(left)
     col = [l for l, c in zip(leaves, counts) for _ in range(c)] + [np.nan] * n_nan + ["zz"] * n_unknown
+    if hier == "numeric":
+        col = [int(l) for l, c in zip(leaves, counts) for _ in range(c)] + [np.nan] * n_nan + [99] * n_unknown
     total = len(col)
     mf = ctx.real("min_freq")
     ctx.assume(mf > 0)
@@ -53,7 +58,7 @@ def h_chained(ctx, hier, N, n_nan, n_unknown, unknown_handling):
         ctx.require(mx / total < mf, "C18.feature-dropped", f"feature dropped although its largest modality holds {mx}/{total} >= min_freq")
         return dict(counters={"dropped": 1}, sample=dict(hier=hier, counts=counts, outcome="dropped"), result=dict(outcome="dropped"))
     if n_unknown and unknown_handling == "raise":
-        ctx.require(outcome == "AssertionError", "C18.unknown-not-rejected", "unknown value accepted under unknown_handling='raise'")
+        ctx.require(outcome == "AssertionError", "C18.unknown-not-rejected", f"unknown value {col[-1]!r} accepted under unknown_handling='raise' (column values {sorted(set(map(repr, col)))})")
         return dict(counters={"rejected": 1}, sample=dict(hier=hier, counts=counts, outcome=outcome), result=dict(outcome=outcome))
     if outcome == "AssertionError":
         ctx.require(False, "C18.valid-sample-rejected", f"fit refused a sample whose values are all known: {msg[:160]} (counts {counts})")
@@ -117,12 +122,15 @@ def obligations(tier):
                     if len(HIER[hier][0]) >= 5 and N > 8:
                         continue
                     jobs.append(dict(hier=hier, N=N, n_nan=n_nan, n_unknown=n_unknown, unknown_handling=uh))
+    for N in ([4] if quick else [4, 6]):
+        for n_nan in (0, 1):
+            jobs.append(dict(hier="numeric", N=N, n_nan=n_nan, n_unknown=1, unknown_handling="raise"))
     return [
         Obligation(
             name="O18.1 every known value kept; a value is its own modality iff its share >= min_freq, otherwise merged into its ancestor (recursively); unknown values per unknown_handling; transform outputs leaders",
             harness=h_chained, jobs=jobs,
             encodes=["ChainedDiscretizer.__init__", "ChainedDiscretizer._prepare_data", "ChainedDiscretizer.fit", "GroupedList.group/get_group/sort_by", "BaseDiscretizer.transform/_transform_qualitative/_check_new_values"],
-            bounds=f"4 hierarchies (1-3 levels, uneven fan-out), N <= {6 if quick else 10} rows with solver-chosen per-leaf counts (0 = never observed), 0/1 NaN row, 0/1 unknown value, "
+            bounds=f"4 hierarchies (1-3 levels, uneven fan-out), N <= {6 if quick else 10} rows with solver-chosen per-leaf counts (0 = never observed), 0/1 NaN row, 0/1 unknown value (a string, or a number in a column of numeric codes), "
                    "unknown_handling in {raise, drop}, min_freq any real in (0,0.5]",
             outside="hierarchies deeper than 3 levels or wider than 5 leaves; intermediate values appearing as raw data",
             twin_every=5,
